@@ -517,6 +517,36 @@ func (le *LockEngine) node(fn *Fn, n ast.Node, f Facts, visit bool) {
 				le.litEntry[lit] = Facts{}
 			} else {
 				le.litEntry[lit] = f.Clone()
+				// handed to a lock wrapper (`l.withLock(func() { … })`): the literal runs under the lock the wrapper
+				// takes on its receiver before it calls its function parameter
+				if c, ok := le.p.parent[x].(*ast.CallExpr); ok && ast.Unparen(c.Fun) != ast.Expr(x) {
+					for k, a := range c.Args {
+						if ast.Unparen(a) != ast.Expr(x) {
+							continue
+						}
+						cf := le.p.Callee(fn, c)
+						if cf == nil || le.p.ByObj[cf] == nil {
+							continue
+						}
+						se, isSel := ast.Unparen(c.Fun).(*ast.SelectorExpr)
+						if !isSel {
+							continue
+						}
+						_, rkey, okk := le.p.PathKey(fn, se.X)
+						if !okk {
+							continue
+						}
+						for _, h := range le.wrapperHeld(le.p.ByObj[cf])[k] {
+							if strings.HasPrefix(h.Rel, "recv") {
+								base := rkey + strings.TrimPrefix(h.Rel, "recv")
+								le.litEntry[lit][heldFact(base, h.Class, "R")] = true
+								if h.Mode == "W" {
+									le.litEntry[lit][heldFact(base, h.Class, "W")] = true
+								}
+							}
+						}
+					}
+				}
 			}
 			return false
 		case *ast.SendStmt:
@@ -1164,4 +1194,83 @@ func (le *LockEngine) ctxAccess(fn *Fn, lit *ast.CompositeLit, obj ast.Expr, cla
 	if rec {
 		le.Accesses = append(le.Accesses, a)
 	}
+}
+
+// wrapperHeld: for a first-party function w, the locks (relative to w's receiver) that are held when w calls its
+// k-th parameter, a function value — read off w's top-level statements: `recv.f.Lock()` / `RLock()`, an optional
+// deferred release, then `param()`; a non-deferred release before the call ends the section.
+func (le *LockEngine) wrapperHeld(w *Fn) map[int][]lockAcq {
+	out := map[int][]lockAcq{}
+	if w == nil || w.Decl == nil || w.Body == nil {
+		return out
+	}
+	params := map[types.Object]int{}
+	i := 0
+	for _, f := range w.Decl.Type.Params.List {
+		for _, n := range f.Names {
+			if _, isFunc := w.Pkg.TypesInfo.Defs[n].Type().Underlying().(*types.Signature); isFunc {
+				params[w.Pkg.TypesInfo.Defs[n]] = i
+			}
+			i++
+		}
+		if len(f.Names) == 0 {
+			i++
+		}
+	}
+	if len(params) == 0 {
+		return out
+	}
+	var held []lockAcq
+	for _, st := range w.Body.List {
+		es, ok := st.(*ast.ExprStmt)
+		if !ok {
+			if _, isDefer := st.(*ast.DeferStmt); isDefer {
+				continue
+			}
+			// anything else (a branch, a loop) and the simple shape is gone
+			if _, isRet := st.(*ast.ReturnStmt); isRet {
+				break
+			}
+			continue
+		}
+		call, ok := es.X.(*ast.CallExpr)
+		if !ok {
+			continue
+		}
+		if id, ok := ast.Unparen(call.Fun).(*ast.Ident); ok {
+			if k, isParam := params[le.p.ObjOf(w, id)]; isParam {
+				out[k] = append([]lockAcq{}, held...)
+			}
+			continue
+		}
+		cf := le.p.Callee(w, call)
+		if cf == nil || cf.Pkg() == nil || cf.Pkg().Path() != "sync" {
+			continue
+		}
+		se, ok := ast.Unparen(call.Fun).(*ast.SelectorExpr)
+		if !ok {
+			continue
+		}
+		class, _, okc := le.lockOf(w, se.X)
+		root, key, okk := le.p.PathKey(w, lockBaseExpr(se.X))
+		if !okc || !okk {
+			continue
+		}
+		rel := le.rel(w, root, key)
+		switch cf.Name() {
+		case "Lock":
+			held = append(held, lockAcq{Class: class, Rel: rel, Mode: "W"})
+		case "RLock":
+			held = append(held, lockAcq{Class: class, Rel: rel, Mode: "R"})
+		case "Unlock", "RUnlock":
+			var nh []lockAcq
+			for _, h := range held {
+				if !(h.Class == class && h.Rel == rel) {
+					nh = append(nh, h)
+				}
+			}
+			held = nh
+		}
+	}
+	return out
 }
